@@ -7,7 +7,7 @@ import random
 
 import common
 
-RENDER = {"T": "int", "x": "a", "n": "1"}
+RENDER = {"T": "int", "x": "a", "n": "1", "S": '"lib"'}
 ALPHABET = ["{", "}", "(", ")", ";", "=", "if", "else", "while", "do", "for", "return", "break", "continue", "T", "x", "n"]
 
 
@@ -78,13 +78,26 @@ def probes(seed, n):
     return [list(x) for x in sorted(out)]
 
 
-def work(recs):
+def work(job):
+    mode, recs = job
     from nsl import parser
     p = parser.NslParser()
     out = []
     for r in recs:
         toks = r["text"]
-        src = "export function f(int a) -> int\n{\n  " + " ".join(RENDER.get(t, t) for t in toks) + "\n}\n"
+        if mode == "body":
+            inner = " ".join(RENDER.get(t, t) for t in toks)
+        else:
+            # every identifier occurrence gets its own spelling (a duplicate field or function name is not a matter of syntax)
+            k = [0]
+
+            def ren(t):
+                if t == "x":
+                    k[0] += 1
+                    return f"a{k[0]}"
+                return RENDER.get(t, t)
+            inner = " ".join(ren(t) for t in toks)
+        src = ("export function f(int a) -> int\n{\n  " + inner + "\n}\n") if mode == "body" else inner + "\n"
         try:
             with common.quiet():
                 m = p.Parse(src)
@@ -100,18 +113,62 @@ def work(recs):
     return out
 
 
-def run_grammar_conformance(ctx, maxlen, nprobes):
+def module_probes(seed, n):
+    r = random.Random(seed)
+
+    def item():
+        k = r.randrange(5)
+        if k == 0:
+            return ["import", "S", ";"]
+        if k == 1:
+            return gen_decl(r) + [";"]
+        if k == 2:
+            f = []
+            for _ in range(r.randrange(0, 3)):
+                f += [r.choice(["T", "x"]), "x", ";"]
+            return ["struct", "x", "{"] + f + ["}"]
+        args = []
+        for j in range(r.randrange(0, 3)):
+            args += ([","] if j else []) + [r.choice(["T", "x"])] + (["x"] if r.random() < 0.7 else [])
+        head = (["export"] if r.random() < 0.5 else []) + ["function", "x", "("] + args + [")", "->", r.choice(["T", "x"])]
+        return head + ([";"] if r.random() < 0.3 else ["{"] + (["return", "x", ";"] if r.random() < 0.5 else []) + ["}"])
+    out = set()
+    while len(out) < n:
+        s = []
+        for _ in range(r.randrange(1, 3)):
+            s += item()
+        if len(s) > 18:
+            continue
+        out.add(tuple(s))
+        for _ in range(3):
+            t = list(s)
+            i = r.randrange(len(t))
+            m = r.randrange(4)
+            alpha = ["import", "S", ";", "struct", "x", "{", "}", "T", "function", "export", "(", ")", "->", ",", "=", "n"]
+            if m == 0:
+                del t[i]
+            elif m == 1:
+                t[i] = r.choice(alpha)
+            elif m == 2:
+                t.insert(i, r.choice(alpha))
+            elif i + 1 < len(t):
+                t[i], t[i + 1] = t[i + 1], t[i]
+            out.add(tuple(t))
+    return [list(x) for x in sorted(out)]
+
+
+def run_grammar_conformance(ctx, maxlen, nprobes, mode="body"):
     import multiprocessing as mp
-    path = ctx.tmp("grammar-probes.json")
-    pr = probes(ctx.seed * 7919 + 5, nprobes)
+    path = ctx.tmp(f"grammar-probes-{mode}.json")
+    pr = probes(ctx.seed * 7919 + 5, nprobes) if mode == "body" else module_probes(ctx.seed * 7919 + 6, nprobes)
     path.write_text(json.dumps(pr))
-    cfg = f"CONSTANTS MaxLen = {maxlen}\nINIT Init\nNEXT Next\nINVARIANT BracesLaw\nINVARIANT ConcatLaw\nINVARIANT PrefixLaw\nINVARIANT Report\nCHECK_DEADLOCK FALSE\n"
+    cfg = f"CONSTANTS MaxLen = {maxlen} Mode = \"{mode}\"\nINIT Init\nNEXT Next\nINVARIANT BracesLaw\nINVARIANT ConcatLaw\nINVARIANT PrefixLaw\nINVARIANT Report\nCHECK_DEADLOCK FALSE\n"
     res = ctx.tlc("Grammar", cfg, env={"BATCH": str(path)}, timeout=3000)
     recs = [r for r in res.records if "ok" in r]
-    if len(recs) < sum(17 ** k for k in range(maxlen + 1)):
+    if len(recs) < sum((17 if mode == "body" else 16) ** k for k in range(maxlen + 1)):
         raise common.Machinery(f"Grammar.tla produced only {len(recs)} verdicts")
     with mp.Pool(16) as pool:
-        outs = pool.map(work, [recs[i:i + 400] for i in range(0, len(recs), 400)])
+        outs = pool.map(work, [(mode, recs[i:i + 400]) for i in range(0, len(recs), 400)])
     counts = {"texts": len(recs), "bodies": sum(1 for r in recs if r["ok"]), "agree": 0}
     for out in outs:
         for key, text in out:
@@ -120,8 +177,8 @@ def run_grammar_conformance(ctx, maxlen, nprobes):
                 continue
             counts[key] = counts.get(key, 0) + 1
             if counts[key] <= 3:
-                msg = (f"CONFORMANCE-NOTE (not a verdict on any listed property): nsl/parser.py {'accepts' if key == 'parser-accepts' else 'refuses'} the body `{text}`, "
-                       f"spec/Grammar.tla says it is {'not ' if key == 'parser-accepts' else ''}a function body")
+                msg = (f"CONFORMANCE-NOTE (not a verdict on any listed property): nsl/parser.py {'accepts' if key == 'parser-accepts' else 'refuses'} the {mode} `{text}`, "
+                       f"spec/Grammar.tla says it is {'not ' if key == 'parser-accepts' else ''}a {'function body' if mode == 'body' else 'module'}")
                 print(msg)
                 ctx.notes.append(msg)
     return counts
